@@ -332,7 +332,7 @@ impl L {
 //@@ subst `definitions::Error::new(__E1)` => `handle_in_use_error()` rule=R9
 //@@ subst `(&attach_error).try_into()` => `condition_of(&attach_error)` rule=R16
 //@@ subst `session .send(SessionControl::End(Some(error))) .map(|_v0| attach_error) .unwrap_or(match self.session_stop_reason.get() { __E1 })` => `(match session.send(SessionControl::End(Some(error))) { Ok(_v0) => attach_error, Err(_v1) => match self.session_stop_reason.get() { __E1 } })` rule=R19
-//@@ subst `self .send_detach(writer, true, None) .map(|_v1| attach_error) .unwrap_or(match self.session_stop_reason.get() { __E1 })` => `(match self.send_detach(writer, true, None) { Ok(_v0) => attach_error, Err(_v1) => match self.session_stop_reason.get() { __E1 } })` rule=R19
+//@@ subst `self .send_detach(writer, true, None) .map(|_v1| attach_error) .unwrap_or(match self.session_stop_reason.get() { __E1 })` => `(match self.send_detach(writer, true, None) { Ok(_v0) => attach_error, Err(_v1) => match self.session_stop_reason.get() { __E1 } })` rule=R19 unless `send_detach\(writer,true,None\)`
 //@@ spec
     ensures
         final(self).session_stop_reason == old(self).session_stop_reason,
